@@ -24,7 +24,8 @@
     newin PREV|- script seq            CMutableTxIn(<PREV> | None, script, seq)
   T := name('.'childindex)*   name = index of the user step that created the root object.
     c09.specx <history>      like c09.runv, computed on Spec.AliasSem (cells with explicit aliasing)
-    c09.xcheck <history>     'same' if heap model and Spec.AliasSem agree on every observation, else 'diff@k' 
+    c09.xcheck <history>     'same' if heap model and Spec.AliasSem agree on every observation, else 'diff@k'
+    c09.runc <history>       c09.run output, then '@@', then the c09.xcheck verdict 
 
   After every user step the driver observes every live object (every non-sequence object below
   every named root, preorder): mutability flag, serialize(), GetHash(), GetTxid(), hash() class,
@@ -366,6 +367,15 @@ def handle (op : String) (args : List String) : Option String :=
       | none => badArgs
   | "c09.specx", [h] => some <| match (h.splitOn ";").mapM parseOp? with
       | some ops => runHistory xMachine Spec.AliasSem.init (fun _ _ _ => "") true ops
+      | none => badArgs
+  | "c09.runc", [h] => some <| match (h.splitOn ";").mapM parseOp? with
+      | some ops =>
+        let r := runHistory heapMachine Model.Heap.init extraOut false ops
+        let a := (runHistory heapMachine Model.Heap.init (fun _ _ _ => "") true ops).splitOn ";"
+        let b := (runHistory xMachine Spec.AliasSem.init (fun _ _ _ => "") true ops).splitOn ";"
+        match (a.zip b).zipIdx.find? (fun ((x, y), _) => x != y) with
+        | none => r ++ "@@same"
+        | some (_, k) => r ++ s!"@@diff@{k}"
       | none => badArgs
   | "c09.xcheck", [h] => some <| match (h.splitOn ";").mapM parseOp? with
       | some ops =>
